@@ -62,23 +62,9 @@ def run(ctx):
     c = _columns(qu).get('url_string_id')
     ck.expect(c is not None and _kw_true(c, 'unique') and _kw_false(c, 'nullable'), 'C01-D1', qu.qual, 'url_string_id: unique=True, nullable=False',
               'queued_urls.url_string_id is not UNIQUE NOT NULL: a URL can be queued (and fetched) twice', 'wpull/database/sqlmodel.py')
-    n_ins = 0
-    for f in repo.funcs.values():
-        if not f.module.name.startswith('wpull.database'):
-            continue
-        pm = None
-        for call in U.calls(f.node):
-            if dotted(call.func) == 'insert':
-                n_ins += 1
-                pm = pm or U.parents(f.node)
-                par = pm.get(id(call))
-                gp = pm.get(id(par)) if par is not None else None
-                ok = isinstance(par, ast.Attribute) and par.attr == 'prefix_with' and isinstance(gp, ast.Call) and gp.args \
-                    and isinstance(gp.args[0], ast.Constant) and str(gp.args[0].value).upper() == 'OR IGNORE'
-                ck.expect(ok, 'C01-D1', f.qual, "%s.prefix_with('OR IGNORE')" % norm_text(call),
-                          'plain INSERT: the second link to an already known URL raises IntegrityError (or duplicates the row)', f.loc(call))
-    if n_ins < 4:
-        ck.bad('C01-D1', 'wpull.database', 'insert(...) statements', 'only %d INSERT statements found (expected >= 4)' % n_ins)
+    from . import c14
+    from .common import RemapCtx, child_record_rules
+    c14.d1_inserts(RemapCtx(ctx, {'C14-D1': 'C01-D1'}))
     # the queue insert takes its key from the url string table by the URL text
     am = repo.func(SQL + ':BaseSQLURLTable.add_many')
     txt_am = ' '.join(norm_text(s) for s in walk_no_nested(am.node) if isinstance(s, ast.Assign))
@@ -148,6 +134,31 @@ def run(ctx):
                       'links to one page become separate rows and are fetched more than once' % why, f.loc(call))
     if sites < 5:
         ck.bad('C01-D2', 'wpull', 'URL-adding call sites', 'only %d URL-adding call sites found (expected >= 5)' % sites)
+    child_record_rules(ctx, 'C01-D2')
+    # every scraped link that parses and passes the filters is queued (nothing else decides)
+    ps = repo.func(RULE + ':ProcessingRule._process_scrape_info')
+    loops = [n for n in walk_no_nested(ps.node) if isinstance(n, ast.For)]
+    if len(loops) != 1:
+        ck.bad('C01-D2', ps.qual, 'loop over the scraped link contexts', 'expected one loop over scrape_result.link_contexts', ps.loc())
+    else:
+        lp = loops[0]
+        it = Interp(repo, ps, body=lp.body, rename=False)
+        badrows = []
+        leaves = it.leaves()
+        for o in leaves:
+            parsed = [v for k, v in o.val.items() if k[0] == 'T' and 'parse_url(' in k[1] and 'consult_filters' not in k[1]]
+            verdict = [v for k, v in o.val.items() if k[0] == 'T' and 'consult_filters(' in k[1]]
+            others = [k for k in o.val if not (k[0] == 'T' and ('parse_url(' in k[1])) and not (k[0] == 'T' and k[1].endswith('.inline'))]
+            added = any('.add_child_url(' in e for e in o.effects)
+            want_add = parsed == [True] and verdict == [True]
+            if added != want_add:
+                badrows.append('%s -> %s' % (fmt_val(o.val), 'queued' if added else 'dropped'))
+            if others and want_add is False and parsed == [True] and verdict != [False]:
+                badrows.append('link dropped for another reason: %s' % fmt_val(o.val))
+        ck.expect(not badrows and len(leaves) >= 3, 'C01-D2', ps.qual, 'a scraped link is queued iff it parses and passes the filters (%d rows)' % len(leaves),
+                  'a discovered in-scope link can be dropped before it reaches the table: %s' % '; '.join(badrows[:3]), ps.loc(lp))
+        okit = norm_text(lp.iter) == 'scrape_result.link_contexts'
+        ck.expect(okit, 'C01-D2', ps.qual, 'iterates every link context of the scrape result', 'the loop no longer visits every scraped link', ps.loc(lp))
     # add_child_url / add_url pass the URL through unchanged
     acu = repo.func(SES + ':ItemSession.add_child_url')
     okp = any(norm_text(c).startswith('self.add_url(%s,' % acu.params[1]) for c in U.calls(acu.node))
@@ -157,32 +168,8 @@ def run(ctx):
               'the URL text is altered between add_child_url and the table', acu.loc())
 
     # ------------------------------------------------------------------ D3
-    for name, model in (('check_out', 'QueuedURL'), ('convert_check_out', 'QueuedFile')):
-        f = repo.func(SQL + ':BaseSQLURLTable.' + name)
-        cfg = ctx.cfg(f)
-        rets = [n for n in cfg.nodes if n.kind == 'return' and n.stmt.value is not None]
-        stores = [n for n in cfg.nodes if n.kind == 'stmt' and isinstance(n.stmt, ast.Assign) and any(
-            isinstance(t, ast.Attribute) and t.attr == 'status' for t in n.stmt.targets)]
-        oks = bool(rets) and bool(stores) and all(norm_text(s.stmt.value) == 'Status.in_progress.value' for s in stores)
-        for r in rets:
-            p = cfg.find_path(cfg.entry, lambda m: m is r, edge_ok=F.normal, stop=lambda m: m in stores)
-            oks = oks and p is None
-        # the record stored is the one queried and returned
-        if oks:
-            rec = {t.value.id for s in stores for t in s.stmt.targets if isinstance(t, ast.Attribute) and isinstance(t.value, ast.Name)}
-            d = U.local_defs(f.node)
-            oks = len(rec) == 1 and all(v is not None and 'session.query(%s)' % model in norm_text(v) and norm_text(v).endswith('.first()')
-                                        for v, k, s in d.get(next(iter(rec)), []))
-            oks = oks and all(next(iter(rec)) in U.names_in(r.stmt.value) for r in rets)
-        ck.expect(oks, 'C01-D3', f.qual, 'row selected, marked in_progress and returned inside one transaction',
-                  '%s can hand out a row without marking it in progress: two workers fetch the same URL' % name, f.loc())
-        nf = [n for n in walk_no_nested(f.node) if isinstance(n, ast.If) and isinstance(n.test, ast.UnaryOp) and isinstance(n.test.op, ast.Not)
-              and any(isinstance(b, ast.Raise) and 'NotFound' in norm_text(b) for b in n.body)]
-        ck.expect(len(nf) == 1, 'C01-D3', f.qual, 'NotFound raised when no row matches', 'check-out no longer reports an empty queue with NotFound', f.loc())
-    co = repo.func(SQL + ':BaseSQLURLTable.check_out')
-    q = [norm_text(c) for c in U.calls(co.node) if U.attr_name(c) in ('filter_by', 'filter')]
-    okf = any('status=%s.value' % co.params[1] in t for t in q) and any('QueuedURL.status == %s.value' % co.params[1] in t and 'QueuedURL.level < %s' % co.params[2] in t for t in q)
-    ck.expect(okf, 'C01-D3', co.qual, 'filters on the requested status (and level bound)', 'check_out does not filter on the requested status', co.loc())
+    c14.d2_checkout(RemapCtx(ctx, {'C14-D2': 'C01-D3'}), 'check_out', 'QueuedURL', 'P0', True)
+    c14.d2_checkout(RemapCtx(ctx, {'C14-D2': 'C01-D3'}), 'convert_check_out', 'QueuedFile', 'todo', False)
 
     # ------------------------------------------------------------------ D4
     gi = repo.func(SES + ':URLItemSource.get_item')
